@@ -494,3 +494,16 @@ Theorem ack_sound_two_step_swap_refuted :
        run_mon (amon_step true) (amon_init (length cfg)) es <> None).
 Proof. exact IngestSwap2Proofs.ack_sound_two_step_swap_refuted. Qed.
 Print Assumptions ack_sound_two_step_swap_refuted.
+
+(* The source shape of that variant -- the regions translate/gen_c01_regions regenerates from a swapBuffers that takes the waiters in a
+   region of its own, acquires the next columns outside any region and swaps them in a second region -- fails the structural obligation of
+   every run for three independent reasons: no single region writes all the shared fields the step SSwap changes, the first region is the
+   region of no step of the model, and the region that re-initialises results / size is not the one that hands out the portion. *)
+Theorem split_swap_regions_are_rejected :
+  regions_ok regions_c02f outside_c02f = false /\
+  step_ok regions_c02f KSwap = false /\
+  existsb (fun r => Nat.eqb (region_owner_count r) 0) regions_c02f = true /\
+  swap_fresh regions_c02f = false /\
+  List.length regions_c02f = 6%nat.
+Proof. exact IngestRegionsProofs.split_swap_regions_are_rejected. Qed.
+Print Assumptions split_swap_regions_are_rejected.
